@@ -56,7 +56,10 @@ def build(cfg):
                 for i, m in enumerate(cfg["modes"])]
         for s in srcs:
             emap.add(s)
-        mon = EventMonitor(emap, trigger="level", data_width=cfg["dw"], alignment=cfg["align"])
+        kw_ = {} if (cfg["align"] == 0 and cfg["n"] % 2 == 0) else {"alignment": cfg["align"]}             # documented defaults: level trigger, alignment 0
+        if cfg["n"] % 3 == 0:
+            kw_["trigger"] = "level"
+        mon = EventMonitor(emap, data_width=cfg["dw"], **kw_)
     except (ValueError, TypeError) as e:
         raise Refused(str(e))
     return mon, emap, srcs
